@@ -5,4 +5,726 @@ import Theo.Spec.VMSpec
 
 namespace Theo
 
+/-! ### memory / code access -/
+
+theorem wr_length {d : List Int} {i v : Int} {d' : List Int} (h : wr d i v = .ok d') :
+    d'.length = d.length := by
+  unfold wr at h
+  split at h
+  · cases h
+  · split at h
+    · cases h; simp
+    · cases h
+
+theorem wr_mem {d : List Int} {i v : Int} {d' : List Int} (h : wr d i v = .ok d') :
+    ∀ w ∈ d', w = v ∨ w ∈ d := by
+  unfold wr at h
+  split at h
+  · cases h
+  · split at h
+    · cases h
+      intro w hw
+      rcases List.mem_or_eq_of_mem_set hw with h1 | h1
+      · exact Or.inr h1
+      · exact Or.inl h1
+    · cases h
+
+theorem rd_mem {d : List Int} {i v : Int} (h : rd d i = .ok v) : v ∈ d := by
+  unfold rd at h
+  split at h
+  · cases h
+  · split at h
+    · rename_i w hw
+      cases h
+      exact List.mem_of_getElem? hw
+    · cases h
+
+theorem fetch_mem {code : List Instr} {ip : Int} {i : Instr} (h : fetch code ip = .ok i) :
+    i ∈ code := by
+  unfold fetch at h
+  split at h
+  · cases h
+  · split at h
+    · rename_i w hw
+      cases h
+      exact List.mem_of_getElem? hw
+    · cases h
+
+/-! ### `step` does not touch the code or the enabled set -/
+
+theorem step_code_enabled {vm vm' : VM} {r : Bool} (hs : step vm = .ok (vm', r)) :
+    vm'.code = vm.code ∧ vm'.enabled = vm.enabled := by
+  unfold step at hs
+  simp only [bind, Except.bind, pure, Except.pure] at hs
+  split at hs
+  · cases hs
+  · rename_i i hf
+    split at hs
+    all_goals (repeat' (split at hs)); all_goals first | (cases hs; done) | (cases hs; exact ⟨rfl, rfl⟩)
+
+/-! ### C19 -/
+
+theorem step_tiles {vm vm' : VM} {r : Bool}
+    (hp : ∀ c i t, Instr.prepare c i t ∈ vm.code → 0 ≤ c)
+    (ht : Tiles vm.stack vm.data.length) (hs : step vm = .ok (vm', r)) :
+    Tiles vm'.stack vm'.data.length := by
+  unfold step at hs
+  simp only [bind, Except.bind, pure, Except.pure] at hs
+  split at hs
+  · cases hs
+  · rename_i i hf
+    have hmem := fetch_mem hf
+    split at hs
+    all_goals (repeat' (split at hs))
+    all_goals try (cases hs; done)
+    all_goals try (cases hs; exact ht)
+    · -- add
+      rename_i hw; cases hs
+      show Tiles vm.stack (List.length _)
+      rw [wr_length hw]; exact ht
+    · -- test
+      rename_i hw; cases hs
+      show Tiles vm.stack (List.length _)
+      rw [wr_length hw]; exact ht
+    · -- const
+      rename_i hw; cases hs
+      show Tiles vm.stack (List.length _)
+      rw [wr_length hw]; exact ht
+    · -- prepare
+      cases hs
+      show Tiles (_ :: vm.stack) (List.length _)
+      simp only [Tiles, List.length_append, List.length_replicate]
+      exact ⟨hp _ _ _ hmem, trivial, ht⟩
+    · -- arg
+      rename_i hw; cases hs
+      show Tiles vm.stack (List.length _)
+      rw [wr_length hw]; exact ht
+    · -- exec
+      rename_i hst; cases hs
+      rw [hst] at ht
+      simp only [Tiles] at ht ⊢
+      exact ht
+    · -- ret
+      rename_i hst _ _ _ _ _ hw; cases hs
+      rw [hst] at ht
+      simp only [Tiles, List.length_take, wr_length hw] at ht ⊢
+      refine ⟨ht.2.2.1, ?_, ht.2.2.2.2⟩
+      omega
+
+/-! ### C20 -/
+
+theorem addClamp_inRange (v c : Int) : InRange (addClamp v c) := by
+  unfold addClamp InRange INT_MAX
+  simp only [Int.min_def, Int.max_def]
+  split <;> split <;> omega
+
+theorem addClamp_neg (v c : Int) (h : v + c < 0) : addClamp v c = 0 := by
+  unfold addClamp INT_MAX
+  simp only [Int.min_def, Int.max_def]
+  split <;> split <;> omega
+
+theorem addClamp_sat (v c : Int) (h : INT_MAX < v + c) : addClamp v c = INT_MAX := by
+  unfold INT_MAX at h
+  unfold addClamp INT_MAX
+  simp only [Int.min_def, Int.max_def]
+  split <;> split <;> omega
+
+theorem addClamp_exact (v c : Int) (h0 : 0 ≤ v + c) (h1 : v + c ≤ INT_MAX) :
+    addClamp v c = v + c := by
+  unfold INT_MAX at h1
+  unfold addClamp INT_MAX
+  simp only [Int.min_def, Int.max_def]
+  (repeat' split) <;> omega
+
+theorem wr_range {d : List Int} {i v : Int} {d' : List Int} (h : wr d i v = .ok d')
+    (hv : InRange v) (hd : ∀ w ∈ d, InRange w) : ∀ w ∈ d', InRange w := by
+  intro w hw
+  rcases wr_mem h w hw with h1 | h1
+  · exact h1 ▸ hv
+  · exact hd w h1
+
+theorem step_range {vm vm' : VM} {r : Bool}
+    (hc : ∀ t c, Instr.const t c ∈ vm.code → InRange c)
+    (hd : ∀ w ∈ vm.data, InRange w) (hs : step vm = .ok (vm', r)) :
+    ∀ w ∈ vm'.data, InRange w := by
+  unfold step at hs
+  simp only [bind, Except.bind, pure, Except.pure] at hs
+  split at hs
+  · cases hs
+  · rename_i i hf
+    have hmem := fetch_mem hf
+    split at hs
+    all_goals (repeat' (split at hs))
+    all_goals try (cases hs; done)
+    all_goals try (cases hs; exact hd)
+    · -- add
+      rename_i hw; cases hs
+      exact wr_range hw (addClamp_inRange _ _) hd
+    · -- test
+      rename_i hw; cases hs
+      refine wr_range hw ?_ hd
+      unfold InRange INT_MAX
+      split <;> omega
+    · -- const
+      rename_i hw; cases hs
+      exact wr_range hw (hc _ _ hmem) hd
+    · -- prepare
+      cases hs
+      intro w hw
+      show InRange w
+      rcases List.mem_append.1 hw with h1 | h1
+      · exact hd w h1
+      · rw [(List.mem_replicate.1 h1).2]
+        unfold InRange INT_MAX; omega
+    · -- arg
+      rename_i hr _ _ hw; cases hs
+      exact wr_range hw (hd _ (rd_mem hr)) hd
+    · -- ret
+      rename_i hr _ _ hw; cases hs
+      intro w hw'
+      exact wr_range hw (hd _ (rd_mem hr)) hd w (List.mem_of_mem_take hw')
+
+/-! ### opcode patching: `setOp`, `setOps`, `restoreAll` -/
+
+theorem setOp_ok {code : List Instr} {i : Int} {v : Instr} {c : List Instr}
+    (h : setOp code i v = .ok c) : 0 ≤ i ∧ i.toNat < code.length ∧ c = code.set i.toNat v := by
+  unfold setOp at h
+  split at h
+  · cases h
+  · split at h
+    · rename_i h1 h2
+      cases h; exact ⟨by omega, h2, rfl⟩
+    · cases h
+
+theorem setOp_exists {code : List Instr} {i : Int} (v : Instr)
+    (h0 : 0 ≤ i) (h1 : i.toNat < code.length) : setOp code i v = .ok (code.set i.toNat v) := by
+  unfold setOp
+  rw [if_neg (by omega), if_pos h1]
+
+theorem setOps_nil (code : List Instr) (v : Instr) : setOps code [] v = .ok code := rfl
+
+theorem setOps_cons (code : List Instr) (i : Int) (is : List Int) (v : Instr) :
+    setOps code (i :: is) v = (setOp code i v).bind (fun c => setOps c is v) := by
+  simp only [setOps, List.foldlM_cons, bind]
+
+theorem setOps_spec {inds : List Int} {v : Instr} : ∀ {code c' : List Instr},
+    setOps code inds v = .ok c' →
+    c'.length = code.length ∧
+    ∀ j : Nat, (c'[j]? = code[j]? ∧ (j : Int) ∉ inds) ∨ ((j : Int) ∈ inds ∧ c'[j]? = some v) := by
+  induction inds with
+  | nil =>
+    intro code c' h
+    rw [setOps_nil] at h; cases h
+    exact ⟨rfl, fun j => Or.inl ⟨rfl, List.not_mem_nil⟩⟩
+  | cons i is ih =>
+    intro code c' h
+    rw [setOps_cons] at h
+    cases h1 : setOp code i v with
+    | error e => rw [h1] at h; cases h
+    | ok c1 =>
+      rw [h1] at h
+      simp only [Except.bind] at h
+      obtain ⟨hi0, hil, rfl⟩ := setOp_ok h1
+      obtain ⟨hl, hj⟩ := ih h
+      refine ⟨by rw [hl, List.length_set], fun j => ?_⟩
+      rcases hj j with ⟨e, hn⟩ | ⟨hm, e⟩
+      · by_cases hji : j = i.toNat
+        · right
+          subst hji
+          refine ⟨?_, ?_⟩
+          · apply List.mem_cons.2; left; omega
+          · rw [e, List.getElem?_set_self hil]
+        · left
+          refine ⟨?_, ?_⟩
+          · rw [e, List.getElem?_set_ne (Ne.symm hji)]
+          · intro hm
+            rcases List.mem_cons.1 hm with h2 | h2
+            · omega
+            · exact hn h2
+      · right; exact ⟨List.mem_cons_of_mem _ hm, e⟩
+
+theorem setOps_exists {inds : List Int} (v : Instr) : ∀ {code : List Instr},
+    (∀ i ∈ inds, 0 ≤ i ∧ i.toNat < code.length) → ∃ c', setOps code inds v = .ok c' := by
+  induction inds with
+  | nil => intro code _; exact ⟨code, rfl⟩
+  | cons i is ih =>
+    intro code h
+    have hi := h i List.mem_cons_self
+    rw [setOps_cons, setOp_exists v hi.1 hi.2]
+    simp only [Except.bind]
+    apply ih
+    intro k hk
+    rw [List.length_set]
+    exact h k (List.mem_cons_of_mem _ hk)
+
+theorem setOps_mem {inds : List Int} {v : Instr} {code c' : List Instr}
+    (h : setOps code inds v = .ok c') : ∀ x ∈ c', x = v ∨ x ∈ code := by
+  intro x hx
+  obtain ⟨j, hj⟩ := List.getElem?_of_mem hx
+  rcases (setOps_spec h).2 j with ⟨e, _⟩ | ⟨_, e⟩
+  · right; rw [e] at hj; exact List.mem_of_getElem? hj
+  · left; rw [e] at hj; cases hj; rfl
+
+theorem restoreAll_nil (p : Program) (code : List Instr) : restoreAll p code [] = .ok code := rfl
+
+theorem restoreAll_cons (p : Program) (code : List Instr) (bp : BreakPoint) (bps : List BreakPoint) :
+    restoreAll p code (bp :: bps) =
+      (setOps code ((p.sitesOf bp).getD []) .potBreak).bind (fun c => restoreAll p c bps) := by
+  simp only [restoreAll, List.foldlM_cons, bind]
+
+theorem restoreAll_mem {p : Program} {bps : List BreakPoint} : ∀ {code c' : List Instr},
+    restoreAll p code bps = .ok c' → ∀ x ∈ c', x = .potBreak ∨ x ∈ code := by
+  induction bps with
+  | nil => intro code c' h; rw [restoreAll_nil] at h; cases h; exact fun x hx => Or.inr hx
+  | cons bp rest ih =>
+    intro code c' h x hx
+    rw [restoreAll_cons] at h
+    cases h1 : setOps code ((p.sitesOf bp).getD []) .potBreak with
+    | error e => rw [h1] at h; cases h
+    | ok c1 =>
+      rw [h1] at h
+      simp only [Except.bind] at h
+      rcases ih h x hx with h2 | h2
+      · exact Or.inl h2
+      · exact setOps_mem h1 x h2
+
+/-! ### the enabled set: `sortedInsert` / `sortedErase` under a trichotomous order -/
+
+theorem bytesLt_tri : ∀ a b : Bytes, bytesLt a b = false → bytesLt b a = false → a = b := by
+  intro a
+  induction a with
+  | nil => intro b h1 h2; cases b with
+    | nil => rfl
+    | cons y ys => simp [bytesLt] at h1
+  | cons x xs ih =>
+    intro b h1 h2
+    cases b with
+    | nil => simp [bytesLt] at h2
+    | cons y ys =>
+      unfold bytesLt at h1 h2
+      by_cases hxy : x < y
+      · rw [if_pos hxy] at h1; cases h1
+      · by_cases hyx : y < x
+        · rw [if_pos hyx] at h2; cases h2
+        · rw [if_neg hxy, if_neg hyx] at h1
+          rw [if_neg hyx, if_neg hxy] at h2
+          have e : x = y := UInt8.le_antisymm (UInt8.not_lt.1 hyx) (UInt8.not_lt.1 hxy)
+          rw [e, ih ys h1 h2]
+
+theorem BreakPoint.lt_tri (a b : BreakPoint) (h1 : BreakPoint.lt a b = false)
+    (h2 : BreakPoint.lt b a = false) : a = b := by
+  unfold BreakPoint.lt at h1 h2
+  cases hab : bytesLt a.file b.file
+  · cases hba : bytesLt b.file a.file
+    · rw [hab, hba] at h1
+      rw [hba, hab] at h2
+      simp only [Bool.false_eq_true, if_false, decide_eq_false_iff_not] at h1 h2
+      have hf := bytesLt_tri _ _ hab hba
+      cases a; cases b
+      simp only at hf h1 h2
+      subst hf
+      congr
+      omega
+    · rw [hba] at h2; simp at h2
+  · rw [hab] at h1; simp at h1
+
+theorem mem_sortedInsert_of_mem {α} (lt : α → α → Bool) (x y : α) :
+    ∀ l : List α, y ∈ l → y ∈ sortedInsert lt false x l := by
+  intro l
+  induction l with
+  | nil => intro h; cases h
+  | cons z zs ih =>
+    intro h
+    unfold sortedInsert
+    split
+    · exact List.mem_cons_of_mem _ h
+    · split
+      · rcases List.mem_cons.1 h with h1 | h1
+        · exact h1 ▸ List.mem_cons_self
+        · exact List.mem_cons_of_mem _ (ih h1)
+      · simpa using h
+
+theorem self_mem_sortedInsert {α} (lt : α → α → Bool) (x : α)
+    (tri : ∀ y, lt x y = false → lt y x = false → x = y) :
+    ∀ l : List α, x ∈ sortedInsert lt false x l := by
+  intro l
+  induction l with
+  | nil => simp [sortedInsert]
+  | cons z zs ih =>
+    unfold sortedInsert
+    split
+    · exact List.mem_cons_self
+    · split
+      · exact List.mem_cons_of_mem _ ih
+      · rename_i h1 h2
+        have e : x = z := tri z (by simpa using h1) (by simpa using h2)
+        simp [e]
+
+theorem mem_sortedErase {α} (lt : α → α → Bool) (x y : α) (hxy : (lt x y || lt y x) = true) :
+    ∀ l : List α, y ∈ l → y ∈ sortedErase lt x l := by
+  intro l
+  induction l with
+  | nil => intro h; cases h
+  | cons z zs ih =>
+    intro h
+    unfold sortedErase
+    split
+    · rcases List.mem_cons.1 h with h1 | h1
+      · exact h1 ▸ List.mem_cons_self
+      · exact List.mem_cons_of_mem _ (ih h1)
+    · rename_i hz
+      rcases List.mem_cons.1 h with h1 | h1
+      · subst h1; exact absurd hxy hz
+      · exact h1
+
+theorem BreakPoint.mem_insert_self (bp : BreakPoint) (l : List BreakPoint) :
+    bp ∈ sortedInsert BreakPoint.lt false bp l :=
+  self_mem_sortedInsert _ _ (fun y h1 h2 => BreakPoint.lt_tri bp y h1 h2) l
+
+theorem BreakPoint.mem_erase_of_ne {bp y : BreakPoint} {l : List BreakPoint} (hne : y ≠ bp)
+    (h : y ∈ l) : y ∈ sortedErase BreakPoint.lt bp l := by
+  apply mem_sortedErase _ _ _ _ l h
+  cases h1 : BreakPoint.lt bp y
+  · cases h2 : BreakPoint.lt y bp
+    · exact absurd (BreakPoint.lt_tri bp y h1 h2).symm hne
+    · rfl
+  · rfl
+
+/-! ### the program tables -/
+
+theorem sitesOf_mem {p : Program} {bp : BreakPoint} {sites : List Int}
+    (h : p.sitesOf bp = some sites) : ∃ e ∈ p.potBreaks, e.2 = sites := by
+  unfold Program.sitesOf at h
+  obtain ⟨e, he, hs⟩ := Option.map_eq_some_iff.1 h
+  exact ⟨e, List.mem_of_find?_eq_some he, hs⟩
+
+theorem sitesOf_ok {p : Program} (hs : SitesOK p) {bp : BreakPoint} {sites : List Int}
+    (h : p.sitesOf bp = some sites) :
+    ∀ i ∈ sites, 0 ≤ i ∧ p.code[i.toNat]? = some Instr.potBreak := by
+  obtain ⟨e, he, rfl⟩ := sitesOf_mem h
+  exact hs.1 e he
+
+theorem sitesOf_getD_ok {p : Program} (hs : SitesOK p) (bp : BreakPoint) :
+    ∀ i ∈ (p.sitesOf bp).getD [], 0 ≤ i ∧ p.code[i.toNat]? = some Instr.potBreak := by
+  cases h : p.sitesOf bp with
+  | none => intro i hi; cases hi
+  | some sites => exact sitesOf_ok hs h
+
+/-! ### C17: the live code is the loaded code with `BREAK` at sites of enabled lines -/
+
+/-- the live code differs from the loaded code only by `BREAK` on sites of lines in `en` -/
+def Shape (p : Program) (code : List Instr) (en : List BreakPoint) : Prop :=
+  code.length = p.code.length ∧
+  ∀ i : Nat, code[i]? = p.code[i]? ∨
+    (code[i]? = some Instr.brk ∧ p.code[i]? = some Instr.potBreak ∧
+      ∃ bp ∈ en, ∃ sites, p.sitesOf bp = some sites ∧ (i : Int) ∈ sites)
+
+theorem shape_init (p : Program) : Shape p p.code [] := ⟨rfl, fun _ => Or.inl rfl⟩
+
+theorem inRange_of_site {p : Program} {code : List Instr} (hl : code.length = p.code.length)
+    {i : Int} (h : 0 ≤ i ∧ p.code[i.toNat]? = some Instr.potBreak) :
+    0 ≤ i ∧ i.toNat < code.length := by
+  refine ⟨h.1, ?_⟩
+  rw [hl]
+  exact (List.getElem?_eq_some_iff.1 h.2).1
+
+theorem shape_enable {p : Program} (hs : SitesOK p) {code c' : List Instr} {en : List BreakPoint}
+    {bp : BreakPoint} {sites : List Int} (hsite : p.sitesOf bp = some sites)
+    (hsh : Shape p code en) (hc : setOps code sites .brk = .ok c') :
+    Shape p c' (sortedInsert BreakPoint.lt false bp en) := by
+  obtain ⟨hl, hj⟩ := setOps_spec hc
+  refine ⟨hl.trans hsh.1, fun j => ?_⟩
+  rcases hj j with ⟨e, _⟩ | ⟨hm, e⟩
+  · rw [e]
+    rcases hsh.2 j with h1 | ⟨h1, h2, b, hb, st, hst, hjs⟩
+    · exact Or.inl h1
+    · exact Or.inr ⟨h1, h2, b, mem_sortedInsert_of_mem _ _ _ _ hb, st, hst, hjs⟩
+  · right
+    have := (sitesOf_ok hs hsite _ hm).2
+    simp only [Int.toNat_natCast] at this
+    exact ⟨e, this, bp, BreakPoint.mem_insert_self bp en, sites, hsite, hm⟩
+
+theorem shape_disable {p : Program} (hs : SitesOK p) {code c' : List Instr} {en : List BreakPoint}
+    {bp : BreakPoint} {sites : List Int} (hsite : p.sitesOf bp = some sites)
+    (hsh : Shape p code en) (hc : setOps code sites .potBreak = .ok c') :
+    Shape p c' (sortedErase BreakPoint.lt bp en) := by
+  obtain ⟨hl, hj⟩ := setOps_spec hc
+  refine ⟨hl.trans hsh.1, fun j => ?_⟩
+  rcases hj j with ⟨e, hn⟩ | ⟨hm, e⟩
+  · rw [e]
+    rcases hsh.2 j with h1 | ⟨h1, h2, b, hb, st, hst, hjs⟩
+    · exact Or.inl h1
+    · refine Or.inr ⟨h1, h2, b, BreakPoint.mem_erase_of_ne ?_ hb, st, hst, hjs⟩
+      intro hbb
+      subst hbb
+      rw [hsite] at hst; cases hst
+      exact hn hjs
+  · left
+    have := (sitesOf_ok hs hsite _ hm).2
+    simp only [Int.toNat_natCast] at this
+    rw [e, this]
+
+theorem restoreAll_shape {p : Program} (hs : SitesOK p) {bps : List BreakPoint} :
+    ∀ {code : List Instr}, Shape p code bps → restoreAll p code bps = .ok p.code := by
+  induction bps with
+  | nil =>
+    intro code hsh
+    rw [restoreAll_nil]
+    congr 1
+    apply List.ext_getElem?
+    intro j
+    rcases hsh.2 j with h1 | ⟨_, _, b, hb, _⟩
+    · exact h1
+    · cases hb
+  | cons bp rest ih =>
+    intro code hsh
+    rw [restoreAll_cons]
+    have hok := sitesOf_getD_ok hs bp
+    obtain ⟨c1, hc1⟩ := setOps_exists (code := code) Instr.potBreak
+      (fun i hi => inRange_of_site hsh.1 (hok i hi))
+    rw [hc1]
+    simp only [Except.bind]
+    apply ih
+    obtain ⟨hl, hj⟩ := setOps_spec hc1
+    refine ⟨hl.trans hsh.1, fun j => ?_⟩
+    rcases hj j with ⟨e, hn⟩ | ⟨hm, e⟩
+    · rw [e]
+      rcases hsh.2 j with h1 | ⟨h1, h2, b, hb, st, hst, hjs⟩
+      · exact Or.inl h1
+      · refine Or.inr ⟨h1, h2, b, ?_, st, hst, hjs⟩
+        rcases List.mem_cons.1 hb with hbb | hbb
+        · subst hbb
+          rw [hst] at hn
+          exact absurd hjs hn
+        · exact hbb
+    · left
+      have := (hok _ hm).2
+      simp only [Int.toNat_natCast] at this
+      rw [e, this]
+
+/-! ### lifting invariants through `ExecTo`, `CallRel`, `Reach` -/
+
+theorem reach_induct {p : Program} {P : VM → Prop} (h0 : P (VM.mk' p))
+    (hstep : ∀ vm vm' r, Reach p vm → P vm → step vm = .ok (vm', r) → P vm')
+    (hbp : ∀ vm vm' b v r, Reach p vm → P vm → VM.setBreakPoint p vm b v = .ok (vm', r) → P vm')
+    (hclear : ∀ vm vm', Reach p vm → P vm → VM.clearBreakpoints p vm = .ok vm' → P vm')
+    (hstepping : ∀ vm b, Reach p vm → P vm → P (vm.setStepping b))
+    (hreset : ∀ vm vm', Reach p vm → P vm → VM.reset p vm = .ok vm' → P vm') :
+    ∀ vm, Reach p vm → P vm := by
+  intro vm hr
+  induction hr with
+  | init => exact h0
+  | call hr hc ih =>
+    cases hc with
+    | single h => exact hstep _ _ _ hr ih h
+    | exec h =>
+      clear hstepping hreset hclear hbp h0
+      induction h with
+      | stop h => exact hstep _ _ _ hr ih h
+      | more h _ ih2 =>
+        exact ih2 (Reach.call hr (CallRel.single h)) (hstep _ _ _ hr ih h)
+    | bp h => exact hbp _ _ _ _ _ hr ih h
+    | clear h => exact hclear _ _ hr ih h
+    | stepping => exact hstepping _ _ hr ih
+    | reset h => exact hreset _ _ hr ih h
+
+/-! ### what the debugger calls do to each field -/
+
+theorem setBreakPoint_spec {p : Program} {vm vm' : VM} {b : BreakPoint} {v r : Bool}
+    (h : VM.setBreakPoint p vm b v = .ok (vm', r)) :
+    vm' = vm ∨ ∃ sites c, p.sitesOf b = some sites ∧
+      ((v = true ∧ setOps vm.code sites .brk = .ok c ∧
+          vm' = { vm with code := c, enabled := sortedInsert BreakPoint.lt false b vm.enabled }) ∨
+       (v = false ∧ setOps vm.code sites .potBreak = .ok c ∧
+          vm' = { vm with code := c, enabled := sortedErase BreakPoint.lt b vm.enabled })) := by
+  unfold VM.setBreakPoint at h
+  split at h
+  · cases h; exact Or.inl rfl
+  · rename_i sites hsite
+    right
+    simp only [bind, Except.bind, pure, Except.pure] at h
+    split at h
+    · split at h
+      · cases h
+      · rename_i c hc
+        cases h
+        exact ⟨sites, c, hsite, Or.inl ⟨‹_›, hc, rfl⟩⟩
+    · split at h
+      · cases h
+      · rename_i c hc
+        cases h
+        exact ⟨sites, c, hsite, Or.inr ⟨eq_false_of_ne_true ‹¬ _›, hc, rfl⟩⟩
+
+theorem clearBreakpoints_spec {p : Program} {vm vm' : VM}
+    (h : VM.clearBreakpoints p vm = .ok vm') :
+    ∃ c, restoreAll p vm.code vm.enabled = .ok c ∧ vm' = { vm with code := c, enabled := [] } := by
+  unfold VM.clearBreakpoints at h
+  simp only [bind, Except.bind, pure, Except.pure] at h
+  split at h
+  · cases h
+  · rename_i c hc
+    cases h
+    exact ⟨c, hc, rfl⟩
+
+theorem reset_spec {p : Program} {vm vm' : VM} (h : VM.reset p vm = .ok vm') :
+    ∃ c, restoreAll p vm.code vm.enabled = .ok c ∧
+      vm' = { stepping := false, ip := 0, code := c, data := [], stack := [], enabled := [] } := by
+  unfold VM.reset at h
+  simp only [bind, Except.bind, pure, Except.pure] at h
+  split at h
+  · cases h
+  · rename_i vm1 h1
+    cases h
+    obtain ⟨c, hc, rfl⟩ := clearBreakpoints_spec h1
+    exact ⟨c, hc, rfl⟩
+
+/-! ### the live code only ever contains loaded instructions and break opcodes -/
+
+def CodeSub (p : Program) (vm : VM) : Prop :=
+  ∀ ins ∈ vm.code, ins ∈ p.code ∨ ins = Instr.brk ∨ ins = Instr.potBreak
+
+theorem reach_codeSub {p : Program} : ∀ vm, Reach p vm → CodeSub p vm := by
+  apply reach_induct
+  · intro ins h; exact Or.inl h
+  · intro vm vm' r _ ih h
+    unfold CodeSub
+    rw [(step_code_enabled h).1]; exact ih
+  · intro vm vm' b v r _ ih h
+    rcases setBreakPoint_spec h with rfl | ⟨sites, c, _, ⟨_, hc, rfl⟩ | ⟨_, hc, rfl⟩⟩
+    · exact ih
+    · intro ins hi
+      rcases setOps_mem hc ins hi with h1 | h1
+      · exact Or.inr (Or.inl h1)
+      · exact ih ins h1
+    · intro ins hi
+      rcases setOps_mem hc ins hi with h1 | h1
+      · exact Or.inr (Or.inr h1)
+      · exact ih ins h1
+  · intro vm vm' _ ih h
+    obtain ⟨c, hc, rfl⟩ := clearBreakpoints_spec h
+    intro ins hi
+    rcases restoreAll_mem hc ins hi with h1 | h1
+    · exact Or.inr (Or.inr h1)
+    · exact ih ins h1
+  · intro vm b _ ih; exact ih
+  · intro vm vm' _ ih h
+    obtain ⟨c, hc, rfl⟩ := reset_spec h
+    intro ins hi
+    rcases restoreAll_mem hc ins hi with h1 | h1
+    · exact Or.inr (Or.inr h1)
+    · exact ih ins h1
+
+/-! ### C19 -/
+
+theorem reach_tiles {p : Program} (hp : NonNegPrepare p.code) :
+    ∀ vm, Reach p vm → Tiles vm.stack vm.data.length := by
+  apply reach_induct
+  · show Tiles [] 0
+    simp [Tiles]
+  · intro vm vm' r hr ih h
+    refine step_tiles ?_ ih h
+    intro c i t hm
+    rcases reach_codeSub vm hr _ hm with h1 | h1 | h1
+    · exact hp c i t h1
+    · cases h1
+    · cases h1
+  · intro vm vm' b v r _ ih h
+    rcases setBreakPoint_spec h with rfl | ⟨sites, c, _, ⟨_, hc, rfl⟩ | ⟨_, hc, rfl⟩⟩
+    · exact ih
+    · exact ih
+    · exact ih
+  · intro vm vm' _ ih h
+    obtain ⟨c, hc, rfl⟩ := clearBreakpoints_spec h
+    exact ih
+  · intro vm b _ ih; exact ih
+  · intro vm vm' _ ih h
+    obtain ⟨c, hc, rfl⟩ := reset_spec h
+    show Tiles [] 0
+    simp [Tiles]
+
+theorem tiles_sum : ∀ (st : List Act) (n : Nat), Tiles st n →
+    n = (st.map (fun a => a.segSize.toNat)).sum := by
+  intro st
+  induction st with
+  | nil => intro n h; simpa [Tiles] using h
+  | cons a rest ih =>
+    intro n h
+    simp only [Tiles] at h
+    have := ih _ h.2.2
+    simp only [List.map_cons, List.sum_cons]
+    omega
+
+/-! ### C20 -/
+
+theorem reach_range {p : Program} (hp : ConstOK p.code) :
+    ∀ vm, Reach p vm → ∀ w ∈ vm.data, InRange w := by
+  apply reach_induct
+  · intro w hw; cases hw
+  · intro vm vm' r hr ih h
+    refine step_range ?_ ih h
+    intro t c hm
+    rcases reach_codeSub vm hr _ hm with h1 | h1 | h1
+    · exact hp t c h1
+    · cases h1
+    · cases h1
+  · intro vm vm' b v r _ ih h
+    rcases setBreakPoint_spec h with rfl | ⟨sites, c, _, ⟨_, hc, rfl⟩ | ⟨_, hc, rfl⟩⟩
+    · exact ih
+    · exact ih
+    · exact ih
+  · intro vm vm' _ ih h
+    obtain ⟨c, hc, rfl⟩ := clearBreakpoints_spec h
+    exact ih
+  · intro vm b _ ih; exact ih
+  · intro vm vm' _ ih h
+    obtain ⟨c, hc, rfl⟩ := reset_spec h
+    intro w hw; cases hw
+
+/-! ### C17 -/
+
+theorem reach_shape {p : Program} (hs : SitesOK p) :
+    ∀ vm, Reach p vm → Shape p vm.code vm.enabled := by
+  apply reach_induct
+  · exact shape_init p
+  · intro vm vm' r _ ih h
+    rw [(step_code_enabled h).1, (step_code_enabled h).2]; exact ih
+  · intro vm vm' b v r _ ih h
+    rcases setBreakPoint_spec h with rfl | ⟨sites, c, hsite, ⟨_, hc, rfl⟩ | ⟨_, hc, rfl⟩⟩
+    · exact ih
+    · exact shape_enable hs hsite ih hc
+    · exact shape_disable hs hsite ih hc
+  · intro vm vm' _ ih h
+    obtain ⟨c, hc, rfl⟩ := clearBreakpoints_spec h
+    rw [restoreAll_shape hs ih] at hc
+    cases hc
+    exact shape_init p
+  · intro vm b _ ih; exact ih
+  · intro vm vm' _ ih h
+    obtain ⟨c, hc, rfl⟩ := reset_spec h
+    rw [restoreAll_shape hs ih] at hc
+    cases hc
+    exact shape_init p
+
+theorem reset_fresh {p : Program} (hs : SitesOK p) {vm : VM} (hr : Reach p vm) :
+    VM.reset p vm = .ok (VM.mk' p) := by
+  have h := restoreAll_shape hs (reach_shape hs vm hr)
+  unfold VM.reset VM.clearBreakpoints
+  simp only [bind, Except.bind, pure, Except.pure, h]
+  rfl
+
+theorem end_absorbing {vm : VM} (h : vm.isDone = .ok true) :
+    step vm = .ok (vm, true) ∧ ExecTo vm vm := by
+  have hf : fetch vm.code vm.ip = .ok Instr.halt := by
+    unfold VM.isDone at h
+    simp only [bind, Except.bind, pure, Except.pure] at h
+    split at h
+    · cases h
+    · rename_i i hi
+      have hd := Except.ok.inj h
+      rw [hi, of_decide_eq_true hd]
+  have hst : step vm = .ok (vm, true) := by
+    unfold step
+    simp only [bind, Except.bind, pure, Except.pure, hf]
+  exact ⟨hst, ExecTo.stop hst⟩
+
 end Theo
